@@ -42,6 +42,11 @@ func ChanCap[T any](ch chan T) int { return 0 }
 // Any is an arbitrary value of type T.
 func Any[T any]() T { var z T; return z }
 
+// Nullable returns x, declared possibly nil: calling a method through it (an
+// interface value) or dereferencing it (a pointer) becomes an obligation of the
+// code under contract instead of an assumption (A-NONNIL).
+func Nullable[T any](x T) T { return x }
+
 // Sent reports that a send of v on ch happened on this path.
 func Sent[T any](ch chan T, v T) bool { return false }
 
